@@ -142,7 +142,9 @@ def machine : Machine MS SS where
     match parseOp args with
     | none => (m, "bad-op")
     | some op =>
-      let r := step true m.s op
+      -- the model is the code as it is (`step false`), defined on in-contract operations
+      if !inContract m.s op then (m, "bad-op out-of-contract") else
+      let r := step false m.s op
       let seen := seenAfter m.seen op
       ({ m with s := r.1, seen := seen },
        render m.real op r.2 (samplePo m.np r.1) (samplePi m.np r.1 seen))
